@@ -209,7 +209,9 @@ CHECKS = {
         "connections against a listener that drops every connection, a dead port (also while other sockets of the context come and "
         "go), a listener that goes away and comes back, a connection that flaps and then meets a dead port (inherited attempt count), "
         "a storm of >256 bus events between two polls of a busy socket. The history sets Isolation's variables in Trace_Isolation.tla; TLC evaluates "
-        "OnlyUserStops on every state, FaultLocal / ComesBack per run and Backoff's clauses on every measured gap.",
+        "OnlyUserStops on every state, FaultLocal / ComesBack per run and Backoff's clauses on every measured gap. Beyond the statement: "
+        "Monitor.tla (the monitor channel as emitting system + observer contract) is checked by TLC and the event streams of real monitors are "
+        "judged by its observer (Trace_Monitor.tla); a rejected stream is a NOTE.",
    note="Measured gaps: -15 ms / +450 ms (100 ms maintenance tick, connect and handshake time). RECONNECT_IVL_MAX < RECONNECT_IVL is "
         "treated as not set. The connecter's loop is compared with its transcription through its ConnectRetried intervals (drift only).",
    technique="TLA+ spec (Isolation.tla, Backoff.tla) + TLC exhaustive incl. liveness; TLC behaviours replayed on the real ReconnectState; TLC trace validation (Trace_Isolation.tla) of recorded fault-injection and reconnect runs",
